@@ -266,7 +266,7 @@ pub fn run(tier: Tier) -> i32 {
     #[allow(non_snake_case)]
     let INSTANTS: &[i64] = &instants;
     let mut run = Run::new("C06", tier, "exploration");
-    run.rule = "(i) every RFC 3339 offset -12:00..+14:00 in 15-minute steps x 12 instants x 0..9 fraction digits (+ Z / +00:00 / -00:00) through three constructors: rejected or exact instant; (i'') the leap second 23:59:60 UTC of 2015-06-30 and 2016-12-31 spelled at every half-hour offset, and as a value in every zone through both codecs; (i') 27 malformed texts and 14 zone names that name no zone: error or preserved instant, never a panic; (ii) every in-model zone x every offset transition 1980-2060 x {t-3601,t-1,t,t+1,t+3599} + a lattice, through parse_from_rfc3339_with_timezone (UTC and local spelling), the chrono conversions, timezone::make_date_time_with_tz (city and full name, instant given at three offsets), make_date_time, the C API constructor from UTC date + time + zone with its date/time/zone getters, and (iii) both codecs with 0/3/6/9 fraction digits; non-trivial = distinct (zone, instant, digits) / distinct text".into();
+    run.rule = "(i) every RFC 3339 offset -12:00..+14:00 in 15-minute steps x 12 instants x 0..9 fraction digits (+ Z / +00:00 / -00:00) through three constructors: rejected or exact instant; (i'') the leap second 23:59:60 UTC of 2015-06-30 and 2016-12-31 spelled at every half-hour offset, and as a value in every zone through both codecs; (i') 27 malformed texts and 14 zone names that name no zone: error or preserved instant, never a panic; (ii) every in-model zone x every offset transition 1980-2060 x {t-3601,t-1,t,t+1,t+3599} + a lattice, through parse_from_rfc3339_with_timezone (UTC and local spelling), the chrono conversions, timezone::make_date_time_with_tz (city and full name, instant given at three offsets), make_date_time, the C API constructor from UTC date + time + zone with its date/time/zone getters, and (iii) both codecs with 0/3/6/9 fraction digits; (v) the 18 zones of the scalar alphabet beyond that range: every offset transition 1900-2100, a yearly lattice to 2200, years 1 / 1000 / 9999, instants just before 1970 (whole-minute offsets only); non-trivial = distinct (zone, instant, digits) / distinct text".into();
     run.assume("chrono_tz offsets are the reference for each zone's local offset (trusted base)");
     run.assume("in-model zone = city name (text after the first '/') designates no zone with different rules under exact or region-prefixed resolution");
     crate::engine::quiet_panics();
@@ -439,6 +439,59 @@ pub fn run(tier: Tier) -> i32 {
         }
     });
     run.absorb(l);
+    // (v) beyond 1980-2060, for the zones of the scalar alphabet (their city names are unambiguous
+    // at all times): every offset transition 1900-2100 (t-1, t, t+1), a yearly lattice 1900-2200,
+    // years 1, 1000, 9999; instants whose local offset has seconds are skipped (RFC 3339 cannot
+    // spell them; recorded under C11)
+    {
+        let zs: Vec<&str> = crate::model::universe::ZONES.to_vec();
+        let l = par_for(zs.len(), |zi, local| {
+            let zone = zs[zi];
+            let tz: Tz = zone.parse().unwrap();
+            let (lo, hi) = (-2_208_988_800i64, 4_102_444_800i64); // 1900-01-01 .. 2100-01-01
+            let mut instants: Vec<i64> = vec![];
+            let mut t = lo;
+            let mut cur = offset_at(&tz, t);
+            while t < hi {
+                let n = (t + 86400).min(hi);
+                if offset_at(&tz, n) != cur {
+                    let (mut a, mut b) = (t, n);
+                    while b - a > 1 {
+                        let m = a + (b - a) / 2;
+                        if offset_at(&tz, m) == cur {
+                            a = m;
+                        } else {
+                            b = m;
+                        }
+                    }
+                    instants.extend([b - 1, b, b + 1]);
+                    cur = offset_at(&tz, n);
+                }
+                t = n;
+            }
+            let mut y = lo;
+            while y < 7_258_118_400 {
+                instants.push(y + 86_399);
+                y += 31_556_952;
+            }
+            instants.extend([-62_135_596_800 + 86_400, -30_610_224_000, 253_402_300_799 - 86_400 * 2, -1, -86_401, 1]);
+            if tier == Tier::Quick {
+                instants = instants.into_iter().step_by(5).collect();
+            }
+            for t in instants {
+                if offset_at(&tz, t) % 60 != 0 {
+                    local.count("wide-range-skipped-seconds-offset");
+                    continue;
+                }
+                for digits in [0usize, 3, 9] {
+                    run_zoned(zone, t, digits, local);
+                    local.count("wide-range-instants");
+                }
+            }
+        });
+        run.absorb(l);
+        run.require(run.counter("wide-range-instants") > 1000, "wide range pass too small");
+    }
     run.require(run.counter("rfc3339-texts") > 10_000, "too few RFC 3339 texts");
     run.require(all.len() >= 500, "fewer than 500 zones in the model");
     run.require(run.counter("zones-with-repeated-hour") > 10 && run.counter("zones-with-skipped-hour") > 10, "no DST transitions explored");
